@@ -5,7 +5,7 @@
    openfile_depth) and the reference's budget (spec_max_links) are the
    constants goextract read from those files on this run. *)
 From Coq Require Import Sorting.Sorted.
-From Apko Require Import Base.Prelude Model.MemFS Spec.FsSpec Proofs.FsProofs Proofs.FsLaws Proofs.FsWf Proofs.FsAgree Proofs.FsReach Generated.FsConsts.
+From Apko Require Import Base.Prelude Model.MemFS Spec.FsSpec Proofs.FsProofs Proofs.FsLaws Proofs.FsWf Proofs.FsAgree Proofs.FsReach Proofs.FsTame Proofs.FsTameOps Generated.FsConsts.
 Open Scope string_scope. Open Scope list_scope.
 
 (* the limits the theorems below are about: both files say the same, and it is
@@ -217,10 +217,10 @@ Print Assumptions c17_refines_run.
    normalised path, getNode and the reference resolution agree (for every
    nesting limit), up to the recorded non-directory-prefix corner; so Stat,
    ReadDir, Chmod, Chown, Chtimes are inside the envelope there.
-   PARTIAL: the corresponding statements for the entry-level lookups
-   (filepath.Dir/Base + getNode), openFile and MkdirAll, and for filesystems WITH
-   links (e.g. "no link target contains '..' and nesting stays below the limit")
-   are not proved; there E's agreement clauses are evaluated, not derived. *)
+   PARTIAL by itself (whole-path lookups, no links); the entry-level lookups,
+   openFile, MkdirAll and filesystems WITH links are covered by
+   c17_lookup_agreement_tame / c17_refines_syntactic below (a link-free heap
+   is tame and the zero weight certifies it). *)
 Theorem c17_lookup_agreement_nolinks_partial : forall b s p,
   no_links (heap s) -> is_dir (heap s) 0 = true -> clean_path p = true ->
   (get_node b (heap s) p = s_node (heap s) p \/
@@ -257,6 +257,137 @@ Definition after (b : backend) (ops : list op) : st := fst (model_run b init_st 
 Definition leaves (b : backend) (ops : list op) (o : op) (tag : string) : Prop :=
   corner b (after b ops) o = Some tag /\ model_step b (after b ops) o <> spec_step (after b ops) o.
 Ltac refute := intros b; destruct b; split; vm_compute; try reflexivity; let H := fresh "H" in (intro H; discriminate H).
+
+(* ---- the syntactic class WITH symbolic links ------------------------------------------------
+   [tame_links h] (a boolean on the state): every symbolic link's target is a
+   non-empty relative path of ordinary names — no "", ".", ".." component, hence
+   no leading "/".  The refuted corners c17_lexical_dotdot (".." in a target) and
+   c17_sequential_links (absolute targets) show that neither restriction can go.
+
+   On a tame heap getNode with nesting limit d IS the reference resolution with
+   total budget d, for EVERY d and every normalised path, "too many links"
+   included (up to the recorded non-directory-prefix corner): a relative
+   target is resolved by re-resolving the whole traversed prefix one level
+   deeper, so the nesting a path needs equals the number of links the reference
+   follows.  No bound on chains is needed for this. *)
+Theorem c17_nesting_is_budget_tame : forall h d p,
+  tame_links h = true -> is_dir h 0 = true -> clean_path p = true ->
+  get_at d h p = rnode (s_resolve d h [0] None p true) \/
+  (get_at d h p = inr ENotExist /\ rnode (s_resolve d h [0] None p true) = inr EOther).
+Proof. exact get_at_is_budget. Qed.
+Print Assumptions c17_nesting_is_budget_tame.
+
+(* hence, with the limits of the source: whole-path lookups (getNode) and
+   entry-level lookups (filepath.Dir/Base + getNode) agree with the reference *)
+Theorem c17_lookup_agreement_tame : forall b s p,
+  tame_links (heap s) = true -> is_dir (heap s) 0 = true ->
+  (clean_path p = true ->
+     get_node b (heap s) p = s_node (heap s) p \/
+     (get_node b (heap s) p = inr ENotExist /\ s_node (heap s) p = inr EOther)) /\
+  (clean_leaf_path p = true ->
+     m_leaf b (heap s) p = s_leaf (heap s) p \/
+     (m_leaf b (heap s) p = inr ENotExist /\ s_leaf (heap s) p = inr EOther) \/
+     leaf_nondir_parent (heap s) (m_leaf b (heap s) p) (s_leaf (heap s) p) = true).
+Proof. intros b s p T R. split; intro H; [apply node_agree_tame | apply leaf_agree_tame]; assumption. Qed.
+Print Assumptions c17_lookup_agreement_tame.
+
+(* openFile and MkdirAll do NOT share the reference's budget (openFile counts the
+   final links apart and gives every parent lookup a fresh limit; MkdirAll gives
+   every linked component a fresh limit, and so does mkdir -p in the reference,
+   but from the physical directory instead of the path text).  They agree as
+   long as the reference stays within its budget; a syntactic certificate for
+   that: a weight on names such that every name under which a link is entered
+   weighs more than the link's whole target ([weights_ok w h], a boolean; [auto_w k h]
+   computes a candidate from the state).  Then no resolution of p, from any
+   directory, follows more than [pw w p] links: *)
+Theorem c17_weight_bounds_links : forall w h, weights_ok w h = true ->
+  forall n st nm p f j, pw w p <= n -> s_resolve (n + j) h st nm p f = s_resolve n h st nm p f.
+Proof. exact weight_bounds_links. Qed.
+Print Assumptions c17_weight_bounds_links.
+
+(* The syntactic refinement theorem.  For a tame state whose root is a
+   directory (every reachable state, c17_wf_invariant_model), a weight certificate,
+   an operation whose openFile/MkdirAll path weighs at most the budget (other
+   operations: no condition), not MkdirAll(".") on tarfs (its loop does not skip
+   "."), and provided no clause of the envelope OTHER than the link-agreement
+   clauses fails (path normalised, the operation's own corners, the
+   non-directory-prefix corner): the link-agreement clauses hold, the operation
+   is inside the envelope, and the code's step is the reference's step. *)
+Theorem c17_refines_syntactic : forall b s o w,
+  tame_links (heap s) = true -> is_dir (heap s) 0 = true ->
+  weights_ok w (heap s) = true -> op_weight w o <= spec_max_links -> dot_ok b o = true ->
+  (forall tag, corner b s o = Some tag -> tag = t_link) ->
+  E b s o = true /\ model_step b s o = spec_step s o.
+Proof. exact refines_syntactic. Qed.
+Print Assumptions c17_refines_syntactic.
+
+(* on reachable states the root premise is discharged by the invariant *)
+Theorem c17_refines_syntactic_reachable : forall b ops o w,
+  let s := reach b ops in
+  tame_links (heap s) = true -> weights_ok w (heap s) = true -> op_weight w o <= spec_max_links -> dot_ok b o = true ->
+  (forall tag, corner b s o = Some tag -> tag = t_link) ->
+  model_step b s o = spec_step s o.
+Proof.
+  intros b ops o w s T W Hw D H.
+  exact (proj2 (refines_syntactic b s o w T (proj2 (reach_wf b ops)) W Hw D H)).
+Qed.
+Print Assumptions c17_refines_syntactic_reachable.
+
+(* non-vacuity: links to directories, links through links, a link whose target
+   runs through another link; the conditions hold (with the computed weight)
+   and the operations are inside the envelope on both backends *)
+Definition c17_tame_demo : list op :=
+  [ MkdirAll ["a"; "b"] 493%N; Symlink ["a"; "b"] ["l"]; WriteFile ["l"; "f"] [1; 2; 3]%N 420%N;
+    Symlink ["f"] ["a"; "b"; "r"]; Symlink ["l"] ["m"]; Symlink ["m"; "r"] ["k"] ].
+Example c17_refines_syntactic_nonvacuous : forall b,
+  let s := reach b c17_tame_demo in
+  let w := auto_w 4 (heap s) in
+  tame_links (heap s) = true /\ weights_ok w (heap s) = true /\ List.map w ["a"; "l"; "r"; "m"; "k"] = [0; 1; 1; 2; 4] /\
+  forallb (fun o => Nat.leb (op_weight w o) spec_max_links && dot_ok b o &&
+                    match corner b s o with None => true | Some _ => false end)
+    [ ReadFile ["k"]; ReadFile ["m"; "r"]; OpenFile ["m"; "new"] (mkFl ARdWr false true false false) 420%N;
+      MkdirAll ["m"; "x"; "y"] 493%N; Stat ["k"]; Lstat ["a"; "b"; "f"]; Link ["k"] ["a"; "hl"]; Readlink ["k"];
+      Mkdir ["m"; "d"] 493%N; Remove ["m"; "r"]; ListXattrs ["k"] ] = true /\
+  snd (model_step b s (ReadFile ["k"])) = OBytes [1; 2; 3]%N.
+Proof. intro b; destruct b; vm_compute; repeat split; reflexivity. Qed.
+
+(* the weight premise cannot be dropped for openFile / MkdirAll although it is
+   not needed for getNode: m40 -> ... -> m01 -> d is a chain of spec_max_links
+   links and d/l -> f one more.  Stat m40/l: code and reference both say "too
+   many links" (inside the envelope).  ReadFile m40/l: the reference says so,
+   openFile resolves the parent m40 and then the final link with fresh limits
+   and reads the file.  MkdirAll m41/x (m41 -> m40): the reference's mkdir -p
+   meets 41 links, the code's MkdirAll resolves the TARGET of m41 with a fresh limit. *)
+Definition c17_nm2 (c : string) (k : nat) : string :=
+  String.append c (string_of_bytes [N.of_nat (48 + k / 10); N.of_nat (48 + k mod 10)]).
+Fixpoint c17_dchain (k : nat) : list op :=
+  match k with
+  | O => []
+  | S k' => Symlink [match k' with O => "d" | S _ => c17_nm2 "m" k' end] [c17_nm2 "m" k] :: c17_dchain k'
+  end.
+Definition c17_budget_ops : list op :=
+  Mkdir ["d"] 493%N :: WriteFile ["d"; "f"] [7]%N 420%N :: Symlink ["f"] ["d"; "l"] :: c17_dchain (S spec_max_links).
+Theorem c17_budget_per_lookup_refuted : forall b,
+  tame_links (heap (after b c17_budget_ops)) = true /\
+  E b (after b c17_budget_ops) (Stat ["m40"; "l"]) = true /\
+  snd (model_step b (after b c17_budget_ops) (Stat ["m40"; "l"])) = OErr EOther /\
+  leaves b c17_budget_ops (ReadFile ["m40"; "l"]) "symlink-lexical-or-nesting-resolution" /\
+  snd (model_step b (after b c17_budget_ops) (ReadFile ["m40"; "l"])) = OBytes [7]%N /\
+  snd (spec_step (after b c17_budget_ops) (ReadFile ["m40"; "l"])) = OErr EOther /\
+  leaves b c17_budget_ops (MkdirAll ["m41"; "x"] 493%N) "symlink-lexical-or-nesting-resolution" /\
+  snd (model_step b (after b c17_budget_ops) (MkdirAll ["m41"; "x"] 493%N)) = OOk /\
+  snd (spec_step (after b c17_budget_ops) (MkdirAll ["m41"; "x"] 493%N)) = OErr EExist.
+Proof.
+  intro b; destruct b; repeat split; try (vm_compute; reflexivity); vm_compute; intro H; discriminate H.
+Qed.
+Print Assumptions c17_budget_per_lookup_refuted.
+
+(* and the exception for tarfs: MkdirAll(".") makes a directory named "." *)
+Theorem c17_tarfs_mkdirall_dot_refuted :
+  leaves TarFS [] (MkdirAll ["."] 493%N) "symlink-lexical-or-nesting-resolution" /\
+  E MemFS init_st (MkdirAll ["."] 493%N) = true.
+Proof. split; [split; vm_compute; [reflexivity | intro H; discriminate H] | vm_compute; reflexivity]. Qed.
+Print Assumptions c17_tarfs_mkdirall_dot_refuted.
 
 Definition fl_rdwr := mkFl ARdWr false false false false.
 Definition fl_rd := mkFl ARd false false false false.
